@@ -814,8 +814,8 @@ def layout_problems(headers: list) -> Optional[list]:
         spans.append((base, base + h[1], f"container {i}"))
         for j in range(nimg):
             off, size = struct.unpack_from("<LL", hdr, HDR_SIZE + IAE_SIZE * j)
-            if size:
-                imgs.append((base + off, base + off + size, f"container {i} image {j}"))
+            # an empty image is treated as a one-byte probe: it, too, has to lie behind the containers and outside other images
+            imgs.append((base + off, base + off + max(size, 1), f"container {i} image {j}"))
     out = []
     for a0, a1, an in imgs:
         for b0, b1, bn in spans:
